@@ -95,7 +95,7 @@ CONSTANTS
   Bug             \* "none" or a seeded defect
 
 AllCmdKinds == {"noop", "caps", "login", "auth", "sel", "idle", "done", "logout", "lit"}
-Bugs == {"none", "removeStateHoldsLock", "closeNoStatesWait", "doneNoRelease", "idleNotStopped"}
+Bugs == {"none", "removeStateHoldsLock", "closeNoStatesWait", "doneNoRelease", "idleNotStopped", "sendIgnoresQuit"}
 
 ASSUME /\ CmdKinds \subseteq AllCmdKinds /\ UpdKinds \subseteq {"normal", "idchg"}
        /\ Bug \in Bugs /\ Removable \subseteq Users /\ ChanCap \in Nat \ {0}
@@ -584,7 +584,8 @@ FwdStep(u) ==
   \/ /\ pc[g] = "F.sel" /\ connQ[u] # <<>> /\ ~Closed(<<"forwardQuit", u>>)
      /\ fwdHeld' = [fwdHeld EXCEPT ![u] = Head(connQ[u])] /\ connQ' = [connQ EXCEPT ![u] = Tail(@)]
      /\ Go(g, "F.send") /\ NoLab /\ UNCHANGED <<wg, chan>> /\ UNCHANGED FwdUnch
-  \/ /\ pc[g] = "F.send" /\ Closed(<<"forwardQuit", u>>)      \* the update is dropped; nobody calls update.Done for it
+  \* (seeded "sendIgnoresQuit": send() only offers the update to updatesCh - once the update loop is gone it blocks for ever)
+  \/ /\ pc[g] = "F.send" /\ Closed(<<"forwardQuit", u>>) /\ Bug # "sendIgnoresQuit"   \* the update is dropped; nobody calls update.Done for it
      /\ fwdHeld' = [fwdHeld EXCEPT ![u] = "none"]
      /\ Go(g, "F.sel") /\ NoLab /\ UNCHANGED <<wg, chan, connQ>> /\ UNCHANGED FwdUnch
   \/ /\ pc[g] = "F.sel" /\ Closed(<<"forwardQuit", u>>)
